@@ -573,4 +573,161 @@ where
 def Doc.rootNodes (d : Doc) (wrapper : Bool) : List Nat :=
   if wrapper then d.children 0 else (List.range d.length).filter (fun i => d.parent i == none)
 
+/-! ### Entry points (`xpath/expression.py` `XPathExpression.evaluate`, `Parser.py`, `Tags.py`)
+
+  Additions for C14 "all entry points agree": every public function that evaluates an expression, written
+  down as the code has it — what it does with its receiver before it reaches the step driver `evaluate`.
+  The constructor `XPathExpression(text)` is a parameter `compile : Str → Option (List (Step N))` here (it is
+  `compileText` of AHP.Model.XPathParse, which this file cannot import; the compiled-expression cache in front
+  of it is C15); `none` = the call raises, whatever the class. -/
+
+/-- The classes `XPathExpression.evaluate(pathRoot)` tells apart, in the order of its `issubclass` chain
+    (any other class: `ValueError`, outside the model). -/
+inductive PathRoot where
+  | tag (i : Nat)                    -- an `AdvancedTag`
+  | parser (wrapper : Bool)          -- an `AdvancedHTMLParser` (`wrapper`: its root is the invisible wrapper)
+  | tagCollection (ms : List Nat)    -- a `TagCollection` (checked before `list`, of which it is a subclass)
+  | listOrTuple (ms : List Nat)      -- a plain `list` / `tuple` of tags
+  deriving Repr, Inhabited
+
+/-- `curResults` of `XPathExpression.evaluate`: `[pathRoot]`, `pathRoot.getRootNodes()`, `pathRoot.all()`,
+    `list(pathRoot)`. -/
+def PathRoot.start (d : Doc) : PathRoot → List Nat
+  | .tag i => [i]
+  | .parser w => d.rootNodes w
+  | .tagCollection ms => ms
+  | .listOrTuple ms => ms
+
+/-- `XPathExpression.evaluate(pathRoot)` on a compiled expression: `TagCollection(curResults)`, then the
+    operations in order (`evaluate`). -/
+def exprEvaluate {N : Type} (nm : Num N) (d : Doc) (steps : List (Step N)) (r : PathRoot) : Option (List Nat) :=
+  evaluate nm d steps (r.start d)
+
+/-- `XPathExpression(text).evaluate(pathRoot)`: the constructor first (it raises on a text that does not
+    compile), then the method. -/
+def textEvaluate {N : Type} (compile : Str → Option (List (Step N))) (nm : Num N) (d : Doc) (text : Str)
+    (r : PathRoot) : Option (List Nat) :=
+  match compile text with
+  | none => none
+  | some steps => exprEvaluate nm d steps r
+
+/-- `AdvancedHTMLParser.getElementsByXPathExpression(text)`: `rootNodes = self.getRootNodes()` *first*, then the
+    constructor, then `xpathExpression.evaluate(rootNodes)` — the receiver is handed over as a plain list. -/
+def parserGetElementsByXPathExpression {N : Type} (compile : Str → Option (List (Step N))) (nm : Num N) (d : Doc)
+    (wrapper : Bool) (text : Str) : Option (List Nat) :=
+  let rootNodes := d.rootNodes wrapper
+  match compile text with
+  | none => none
+  | some steps => exprEvaluate nm d steps (.listOrTuple rootNodes)
+
+/-- `getElementsByXPath = getElementsByXPathExpression` (class attribute alias). -/
+def parserGetElementsByXPath {N : Type} (compile : Str → Option (List (Step N))) (nm : Num N) (d : Doc)
+    (wrapper : Bool) (text : Str) : Option (List Nat) :=
+  parserGetElementsByXPathExpression compile nm d wrapper text
+
+/-- The second argument of `AdvancedHTMLParser.evaluate(text, whichDoc=None)`. -/
+inductive WhichDoc | default | self | other
+  deriving Repr, DecidableEq, Inhabited
+
+/-- `AdvancedHTMLParser.evaluate(text, whichDoc)`: `ValueError` unless `whichDoc` is `None` or the parser
+    itself, then `self.getElementsByXPathExpression(text)`. -/
+def parserEvaluate {N : Type} (compile : Str → Option (List (Step N))) (nm : Num N) (d : Doc)
+    (wrapper : Bool) (text : Str) (whichDoc : WhichDoc) : Option (List Nat) :=
+  if whichDoc = .other then none
+  else parserGetElementsByXPathExpression compile nm d wrapper text
+
+/-- `AdvancedTag.getElementsByXPathExpression(text)`: the constructor, then `xpathExpression.evaluate(self)`. -/
+def tagGetElementsByXPathExpression {N : Type} (compile : Str → Option (List (Step N))) (nm : Num N) (d : Doc)
+    (i : Nat) (text : Str) : Option (List Nat) :=
+  match compile text with
+  | none => none
+  | some steps => exprEvaluate nm d steps (.tag i)
+
+/-- `AdvancedTag.getElementsByXPath = getElementsByXPathExpression`. -/
+def tagGetElementsByXPath {N : Type} (compile : Str → Option (List (Step N))) (nm : Num N) (d : Doc)
+    (i : Nat) (text : Str) : Option (List Nat) :=
+  tagGetElementsByXPathExpression compile nm d i text
+
+/-- `TagCollection.getElementsByXPathExpression(text)`: an empty collection answers with an empty collection
+    *before* the constructor runs (so a text that does not compile is not noticed); otherwise the constructor,
+    then `xpathExpression.evaluate(self)`. -/
+def collGetElementsByXPathExpression {N : Type} (compile : Str → Option (List (Step N))) (nm : Num N) (d : Doc)
+    (ms : List Nat) (text : Str) : Option (List Nat) :=
+  if ms.isEmpty then some []
+  else
+    match compile text with
+    | none => none
+    | some steps => exprEvaluate nm d steps (.tagCollection ms)
+
+/-- `TagCollection.getElementsByXPath = getElementsByXPathExpression`. -/
+def collGetElementsByXPath {N : Type} (compile : Str → Option (List (Step N))) (nm : Num N) (d : Doc)
+    (ms : List Nat) (text : Str) : Option (List Nat) :=
+  collGetElementsByXPathExpression compile nm d ms text
+
+/-- What every entry point on a **parser** comes to: compile the text, evaluate from the document's root nodes
+    (the root, or the children of the invisible wrapper). -/
+def evalParser {N : Type} (compile : Str → Option (List (Step N))) (nm : Num N) (d : Doc) (wrapper : Bool)
+    (text : Str) : Option (List Nat) :=
+  (compile text).bind (fun steps => evaluate nm d steps (d.rootNodes wrapper))
+
+/-- … on an **element**: compile, evaluate from the element itself. -/
+def evalElement {N : Type} (compile : Str → Option (List (Step N))) (nm : Num N) (d : Doc) (i : Nat)
+    (text : Str) : Option (List Nat) :=
+  (compile text).bind (fun steps => evaluate nm d steps [i])
+
+/-- … on a **collection / list / tuple**: compile, evaluate from its members in order. -/
+def evalColl {N : Type} (compile : Str → Option (List (Step N))) (nm : Num N) (d : Doc) (ms : List Nat)
+    (text : Str) : Option (List Nat) :=
+  (compile text).bind (fun steps => evaluate nm d steps ms)
+
+/-- The public entry points on a parser `p` (the property names all four). -/
+inductive ParserEntry where
+  | getElementsByXPathExpression                 -- p.getElementsByXPathExpression(text)
+  | getElementsByXPath                           -- p.getElementsByXPath(text)
+  | evaluate (whichDoc : WhichDoc)               -- p.evaluate(text[, whichDoc])
+  | exprEvaluate                                 -- XPathExpression(text).evaluate(p)
+  | exprEvaluateRootNodes (asTuple : Bool)       -- XPathExpression(text).evaluate(p.getRootNodes()) / tuple(…)
+  deriving Repr, Inhabited
+
+def ParserEntry.run {N : Type} (compile : Str → Option (List (Step N))) (nm : Num N) (d : Doc) (wrapper : Bool)
+    (text : Str) : ParserEntry → Option (List Nat)
+  | .getElementsByXPathExpression => parserGetElementsByXPathExpression compile nm d wrapper text
+  | .getElementsByXPath => parserGetElementsByXPath compile nm d wrapper text
+  | .evaluate w => parserEvaluate compile nm d wrapper text w
+  | .exprEvaluate => textEvaluate compile nm d text (.parser wrapper)
+  | .exprEvaluateRootNodes _ => textEvaluate compile nm d text (.listOrTuple (d.rootNodes wrapper))
+
+/-- The public entry points on an element. -/
+inductive TagEntry where
+  | getElementsByXPathExpression | getElementsByXPath | exprEvaluate
+  | exprEvaluateSingleton (asTuple : Bool)       -- XPathExpression(text).evaluate([tag]) / (tag,)
+  deriving Repr, Inhabited
+
+def TagEntry.run {N : Type} (compile : Str → Option (List (Step N))) (nm : Num N) (d : Doc) (i : Nat)
+    (text : Str) : TagEntry → Option (List Nat)
+  | .getElementsByXPathExpression => tagGetElementsByXPathExpression compile nm d i text
+  | .getElementsByXPath => tagGetElementsByXPath compile nm d i text
+  | .exprEvaluate => textEvaluate compile nm d text (.tag i)
+  | .exprEvaluateSingleton _ => textEvaluate compile nm d text (.listOrTuple [i])
+
+/-- The public entry points on a collection with members `ms`. -/
+inductive CollEntry where
+  | getElementsByXPathExpression | getElementsByXPath
+  | exprEvaluate                                 -- XPathExpression(text).evaluate(collection)
+  | exprEvaluateList (asTuple : Bool)            -- XPathExpression(text).evaluate(list(collection)) / tuple(…)
+  deriving Repr, Inhabited
+
+def CollEntry.run {N : Type} (compile : Str → Option (List (Step N))) (nm : Num N) (d : Doc) (ms : List Nat)
+    (text : Str) : CollEntry → Option (List Nat)
+  | .getElementsByXPathExpression => collGetElementsByXPathExpression compile nm d ms text
+  | .getElementsByXPath => collGetElementsByXPath compile nm d ms text
+  | .exprEvaluate => textEvaluate compile nm d text (.tagCollection ms)
+  | .exprEvaluateList _ => textEvaluate compile nm d text (.listOrTuple ms)
+
+/-- the two collection *methods* (they short-cut on an empty collection) -/
+def CollEntry.isMethod : CollEntry → Bool
+  | .getElementsByXPathExpression => true
+  | .getElementsByXPath => true
+  | _ => false
+
 end AHP.XPath
